@@ -5,7 +5,7 @@ from hypothesis import strategies as st
 
 from conda_content_trust import authentication as A
 
-from vlib import gen_envelope as GE, gen_json as G, gen_metadata as GM, keys, ref_openpgp, ref_schema, ref_verify as RV, \
+from vlib import cfgunit, configrun, gen_envelope as GE, gen_json as G, gen_metadata as GM, keys, ref_openpgp, ref_schema, ref_verify as RV, \
     related
 from vlib.ref_canon import canon
 from vlib.runner import Unit, Violation
@@ -225,7 +225,23 @@ def check_pair(case):
             "count": {"history_probes": probes}}
 
 
+@st.composite
+def _config_cases(draw):
+    calls = []
+    for _ in range(draw(st.integers(3, 5))):
+        c = draw(root_pairs())
+        calls.append(["verify_root", c["T"], c["N"]])
+    return {"calls": calls, "config": draw(configrun.configs)}
+
+
+def check_config(case):
+    verdicts, labels, count = cfgunit.config_probe(case["calls"], "iff", case["config"])
+    return {"nontrivial": len(set(verdicts)) > 1, "labels": labels, "count": count}
+
+
 UNITS = [
+    Unit("config", check_config, strategy=_config_cases, quick=24, thorough=400, shards_quick=8, shrink=False,
+         doc="the rule holds in fresh interpreters under drawn configurations and discovered environment variables"),
     Unit("pairs", check_pair, essential_min=0.01, strategy=root_pairs, quick=1500, thorough=60000,
          essential=["only-false=version", "only-false=trusted_rule", "only-false=own_rule", "only-false=types",
                     "only-false=rootdeleg", "accept:rotated", "only-false=wf_N", "only-false=wf_T"],
